@@ -118,6 +118,10 @@ def _binary_programs():
     out.append(("binop_LL", lambda t: t["L"].a + t["L"].b, False, "binop"))
     out.append(("binop_filter_other", lambda t: t["L"][t["L"].a > t["L"].b.mean()], False, "binop"))
     out.append(("where", lambda t: t["L"].a.where(t["L"].b > 1, -1), False, "binop"))
+    out.append(("two_shifts", lambda t: t["L"].a.shift(1) + t["L"].a.shift(2), False, "overlap"))
+    out.append(("two_diffs_frame", lambda t: t["L"][["a", "b"]].diff(1) + t["L"][["a", "b"]].shift(1), False, "overlap"))
+    out.append(("shared_filter_sum", lambda t: (lambda x: x.a.sum() + x.b.sum())(t["L"][t["L"].a > 2]), False, "shared"))
+    out.append(("shared_two_consumers", lambda t: (lambda x: x[["a"]].sum() + x[["a"]].count())(t["L"].assign(z=t["L"].a * 2)), False, "shared"))
     return out
 
 
@@ -137,6 +141,8 @@ class Program:
     families: tuple
     depth: int
     noindex: bool = False
+    pandas_ok: bool = True  # pandas on the concatenated input is a valid oracle (see _tail_ok/_order_ok)
+    order_ok: bool = True  # no order-/label-sensitive operator after one whose row order / labels are unspecified
 
 
 _ROWCOUNT_PRESERVING = {"projection", "assign", "elemwise", "rename", "astype", "cumulative", "map_partitions", "overlap"}
@@ -210,14 +216,16 @@ def enumerate_programs(max_depth=2):
                     x = op.fn(x)
                 return term.fn(x)
 
-            if not _tail_ok(chain) or not _order_ok(chain, term) or _excluded(chain, term):
+            order_ok = _order_ok(chain, term)
+            pandas_ok = _tail_ok(chain) and order_ok
+            if _excluded(chain, term):
                 continue
             name = "/".join([o.name for o in chain] + [term.name])
             unordered = any(o.unordered for o in chain) or term.unordered or _has_tie_sort(chain)
             noindex = any(o.noindex for o in chain) or term.noindex
             if noindex and term.name == "index":
                 continue  # asking for index labels that dask-expr leaves unspecified
-            progs.append(Program(name, fn, unordered, tuple(o.family for o in chain) + (term.family,), len(chain) + 1, noindex))
+            progs.append(Program(name, fn, unordered, tuple(o.family for o in chain) + (term.family,), len(chain) + 1, noindex, pandas_ok, order_ok))
     for name, fn, unordered, fam in _binary_programs():
         progs.append(Program(name, fn, unordered, (fam,), 2, fam == "merge"))
     return progs
@@ -230,8 +238,12 @@ def pandas_env():
     return {"L": e2e.T_int(), "R": e2e.T_right()}
 
 
-def valid_programs(max_depth=2):
-    """Programs on which pandas itself succeeds (the oracle is defined); cached per depth."""
+def valid_programs(max_depth=2, oracle="pandas"):
+    """Programs on which pandas itself succeeds; cached per depth.
+    oracle="pandas": only those whose pandas result is a valid oracle for dask-expr's documented semantics;
+    oracle="any": all of them (for oracles such as the unoptimised plan or structural checks)."""
+    if oracle == "pandas":
+        return [p for p in valid_programs(max_depth, "any") if p.pandas_ok]
     if max_depth in _VALID_CACHE:
         return _VALID_CACHE[max_depth]
     env = pandas_env()
